@@ -197,6 +197,9 @@ Proof. unfold census_witness. repeat split; try (vm_compute; tauto); vm_compute;
 Lemma server_url_norm_known : g_server_url_norm = UnAppendSlash.
 Proof. vm_compute. reflexivity. Qed.
 
+Lemma redirect_parse_known : g_redirect_parse = RpStripSlashRsplitNth1Next.
+Proof. vm_compute. reflexivity. Qed.
+
 Definition sinks_witness : Prop :=
   existsb (fun k => String.eqb (k_fn k) "fetch_lookup"%string && String.eqb (k_text k) ".persist_noclobber(&final_cache_path)"%string &&
                     match k_paths k with [PJoined RCacheDir (ACacheRel (GBuilt BLookup))] => true | _ => false end) g_fs_sinks = true /\
